@@ -36,6 +36,13 @@ def cases(tier, seed):
                         continue
                     for frozen in (True, False):
                         out.append(dict(kind=kind, dtype=dt, qtype=q, act=a, frozen=frozen, cycles=2 if tier == "quick" else 3))
+                    if kind in ("linear", "mlp", "nested") and q in ("qint8", "qint4"):
+                        # a target that is in eval() mode and has already run a forward pass before the state_dict is loaded
+                        out.append(dict(kind=kind, dtype=dt, qtype=q, act=a, frozen=False, cycles=2 if tier == "quick" else 3, warm_target=True))
+                        out.append(dict(kind=kind, dtype=dt, qtype=q, act=a, frozen=True, cycles=1, warm_target=True))
+                    if a is not None and kind in ("mlp", "nested") and q in ("qint8",):
+                        # scales produced by a real Calibration run (not set by hand): what a user's checkpoint contains
+                        out.append(dict(kind=kind, dtype=dt, qtype=q, act=a, frozen=True, cycles=1, calibrated=True))
                     if a is not None and q in ("qint8", "qint4") and kind in ("linear", "lnorm", "nested"):
                         # a module whose activations were streamlined away by calibration (activation_qtype None, saved as "none")
                         out.append(dict(kind=kind, dtype=dt, qtype=q, act=a, frozen=True, cycles=1, streamlined=True))
@@ -63,7 +70,7 @@ def serializer_roundtrips(sd):
                 return f"{k}: tensor differs after round trip"
         return None
 
-    sdc = {k: (v.detach().clone().contiguous() if isinstance(v, torch.Tensor) else v) for k, v in sd.items()}
+    sdc = dict(sd)  # exactly what model.state_dict() returned (no cloning: shared storages must survive the serializers too)
     for name, wo in (("pickle", False), ("weights_only", True)):
         try:
             buf = io.BytesIO()
@@ -119,7 +126,7 @@ def compare_states(a, b):
     return probs
 
 
-def scenario(kind, dt, qtype, act, frozen, cycles, x, read, sym_hook=None, streamlined=False):
+def scenario(kind, dt, qtype, act, frozen, cycles, x, read, sym_hook=None, streamlined=False, warm_target=False, calibrated=False):
     """save -> load into three kinds of target -> compare -> save again; returns list of problems"""
     from optimum.quanto import freeze, quantize, requantize
 
@@ -129,7 +136,13 @@ def scenario(kind, dt, qtype, act, frozen, cycles, x, read, sym_hook=None, strea
     quantize(src, weights=q_t, activations=a_t)
     if a_t is not None:
         models.set_scales(src, 0.031, 0.043)
-    if sym_hook:
+    if calibrated and a_t is not None:
+        from optimum.quanto import Calibration
+
+        with torch.no_grad(), Calibration(streamline=False):
+            src(x)
+            src(x * 1.5)
+    if sym_hook and not calibrated:
         sym_hook(src)
     if streamlined:
         from optimum.quanto.nn import QModuleMixin
@@ -159,9 +172,17 @@ def scenario(kind, dt, qtype, act, frozen, cycles, x, read, sym_hook=None, strea
                 sd_in = dict(cur_sd)
                 if target == "default":
                     quantize(tgt, weights=wq.qt("qint8"))
+                    if warm_target:
+                        tgt.eval()
+                        with torch.no_grad():
+                            tgt(x)
                     tgt.load_state_dict(sd_in)
                 elif target == "same":
                     quantize(tgt, weights=q_t, activations=a_t)
+                    if warm_target:
+                        tgt.eval()
+                        with torch.no_grad():
+                            tgt(x)
                     tgt.load_state_dict(sd_in)
                 else:
                     requantize(tgt, sd_in)
@@ -197,7 +218,7 @@ def run_case(case, res):
     dt = api.DT[case["dtype"]]
     _, x = models.make(case["kind"], dt)
     # byte-level serializers, concretely on the seed
-    probs_c, sd = scenario(case["kind"], dt, case["qtype"], case["act"], case["frozen"], 1, x, lambda t: (t.dequantize() if hasattr(t, "dequantize") else t).detach().clone(), None, case.get("streamlined", False))
+    probs_c, sd = scenario(case["kind"], dt, case["qtype"], case["act"], case["frozen"], 1, x, lambda t: (t.dequantize() if hasattr(t, "dequantize") else t).detach().clone(), None, case.get("streamlined", False), case.get("warm_target", False), case.get("calibrated", False))
     ser = serializer_roundtrips(sd)
     res.side_ok("serializers-identity-on-seed", not ser, "; ".join(ser)[:300])
     with Session(res) as m:
@@ -217,11 +238,11 @@ def run_case(case, res):
                     m.symbolic(mod.output_scale, f"s.{n}.out")
                     cnt[0] += 2
 
-        probs, _ = scenario(case["kind"], dt, case["qtype"], case["act"], case["frozen"], case["cycles"], x, lambda t: m.read(t) if type(t) in (torch.Tensor, torch.nn.Parameter) else m.read(t.dequantize()), hook, case.get("streamlined", False))
+        probs, _ = scenario(case["kind"], dt, case["qtype"], case["act"], case["frozen"], case["cycles"], x, lambda t: m.read(t) if type(t) in (torch.Tensor, torch.nn.Parameter) else m.read(t.dequantize()), hook, case.get("streamlined", False), case.get("warm_target", False), case.get("calibrated", False))
     res.query("save-load-reproduces-model", "ALG", "unsat" if not probs else "sat", 0.0, nvars=x.numel() + cnt[0], sub=f"{len(probs)} differences")
     if probs or ser:
         res.side[-1]["replayed"] = True
-        res.candidate("roundtrip", "ALG", dict(kind=case["kind"], dtype=case["dtype"], qtype=case["qtype"], act=case["act"], frozen=case["frozen"], cycles=case["cycles"], streamlined=case.get("streamlined", False), x=api.enc_tensor(x), note=(probs + ser)[:4]), exact=False)
+        res.candidate("roundtrip", "ALG", dict(kind=case["kind"], dtype=case["dtype"], qtype=case["qtype"], act=case["act"], frozen=case["frozen"], cycles=case["cycles"], streamlined=case.get("streamlined", False), warm_target=case.get("warm_target", False), calibrated=case.get("calibrated", False), x=api.enc_tensor(x), note=(probs + ser)[:4]), exact=False)
 
 
 def replay(rec):
@@ -230,7 +251,7 @@ def replay(rec):
     inp = rec["inputs"]
     dt = api.DT[inp["dtype"]]
     x = api.dec_tensor(inp["x"])
-    probs, sd = scenario(inp["kind"], dt, inp["qtype"], inp["act"], inp["frozen"], inp["cycles"], x, lambda t: (t.dequantize() if hasattr(t, "dequantize") else t).detach().clone(), None, inp.get("streamlined", False))
+    probs, sd = scenario(inp["kind"], dt, inp["qtype"], inp["act"], inp["frozen"], inp["cycles"], x, lambda t: (t.dequantize() if hasattr(t, "dequantize") else t).detach().clone(), None, inp.get("streamlined", False), inp.get("warm_target", False), inp.get("calibrated", False))
     probs += serializer_roundtrips(sd)
     keys = set()
     lowbit_grouped_unfrozen = (not inp["frozen"]) and wq.qt(inp["qtype"]).bits < 8 and inp["kind"] == "linear-wide"
